@@ -3,6 +3,7 @@ pub mod calib;
 pub mod defect;
 pub mod diag;
 pub mod exec;
+pub mod fuzz;
 pub mod gen;
 pub mod json;
 pub mod labels;
